@@ -736,6 +736,25 @@ fn sink(variant: usize, order: AttrOrder, label: &str, max_dev: usize) -> ClassC
 	build_case(label, bytes, max_dev).unwrap_or_else(|e| vcore::machinery_fail(&format!("{label}: {e}")))
 }
 
+/// Generated corner cases the corpus cannot contain: classes WITHOUT ANY class-level attribute (javac always
+/// writes SourceFile). For them the last thing a declining read does is read `attributes_count`, not skip an
+/// attribute, which is a different end-of-class path of the reader.
+fn bare_classes(max_dev: usize) -> Vec<ClassCase> {
+	use cfmodel::gen::{class_with_method, js, skeleton, RETURN};
+	let bare = skeleton("p/Bare");
+	let mut members = class_with_method("p/BareWithMembers", vec![RETURN]);
+	members.fields.push(cfmodel::SField { access: 0x0002, name: js("f"), desc: js("I"), ..Default::default() });
+	[("bare/no-members-no-attributes", bare), ("bare/members-but-no-class-attributes", members)].into_iter().map(|(label, mut m)| {
+		cfmodel::gen::normalize(&mut m);
+		let bytes = assemble(&m, &Encoding::default()).unwrap_or_else(|e| vcore::machinery_fail(&format!("{label}: assembler: {e:?}")));
+		match cfmodel::parse(&bytes) {
+			Ok(p) if p.class == m => {},
+			_ => vcore::machinery_fail(&format!("{label}: assembler and reference parser disagree")),
+		}
+		build_case(label, bytes, max_dev).unwrap_or_else(|e| vcore::machinery_fail(&format!("{label}: {e}")))
+	}).collect()
+}
+
 /// the generated classes by label (a replay file may name one instead of carrying its bytes)
 const SINKS: [(&str, usize, AttrOrder); 6] = [
 	("sink2/attrs-default", 2, AttrOrder::Default),
@@ -811,6 +830,7 @@ fn main() {
 			classes.push(sink(variant, order, label, 2));
 		}
 	}
+	classes.extend(bare_classes(deep));
 	let corpus = cfmodel::corpus::vendored(&vcore::verif_root());
 	let n_corpus = corpus.len();
 	let mut n_selected = 0u64;
@@ -856,6 +876,7 @@ fn main() {
 		let bytes = corpus.iter().find(|(n, _)| n == name).map(|(_, b)| b.clone()).unwrap_or_else(|| vcore::machinery_fail(&format!("corpus class {name} missing")));
 		pool.push(build_case(&format!("corpus/{name}"), bytes, 0).unwrap_or_else(|e| vcore::machinery_fail(&format!("{name}: {e}"))));
 	}
+	pool.extend(bare_classes(0));
 	let pool: &'static Vec<ClassCase> = Box::leak(Box::new(pool));
 	let mut streams: Vec<StreamCase> = Vec::new();
 	for len in 1..=3usize {
